@@ -7,12 +7,12 @@ props = [json.loads(l) for l in open(V + "/properties.jsonl")]
 NOTE = ("trusted: Lean 4.33 kernel with axioms propext/Classical.choice/Quot.sound only (audited each run); "
         "lean/FixedMath/CSem.lean as the reading of the C++ abstract machine; the hand-written model "
         "(validated against /repo on every run by the differential correspondence harness, exhaustive on finite "
-        "theorem domains and sampled elsewhere); tools/gen_consts.py; the harness; GCC/Clang as conforming compilers")
+        "theorem domains and sampled elsewhere, incl. a native soak of 19M generated operations per run and a purity run); tools/gen_consts.py; the harness; GCC/Clang as conforming compilers")
 
 CLAIMED = {
  "C01": ("proof", "Lean theorems C01_add/C01_sub: for ALL finite pairs the model of + - += -= returns without UB the exact result or NaN. "
-         "Tie to the code: correspondence on the in-line, out-of-line, compound and sign-aware call sites (g++ -O2, clang++ -O2) plus "
-         "UBSan/ASan leg; thorough tier runs the 24+ configuration matrix (sampled, not proved).", "omega over UB-monad model; differential correspondence + sanitizer leg"),
+         "Tie to the code: correspondence on the in-line, out-of-line, compound, self-aliasing and sign-aware call sites on six builds (DESIGN.md 0.5), "
+         "a purity run, 19M natively generated operations (soak), constant-evaluation static_asserts, UBSan/ASan leg; thorough tier runs the 58+ configuration matrix (sampled, not proved).", "omega over UB-monad model; differential correspondence + sanitizer leg"),
  "C02": ("proof", "C02_mul (floor of exact product or NaN; not NaN when the raw product fits int64; NaN when out of range) and C02_scalar "
          "(exact or NaN for each of the 8 integral types, both orders) for ALL operands; correspondence around 2^31.5, 2^63, uint64 >= 2^63.", "omega + nonlinear atoms; differential correspondence"),
  "C03": ("proof", "C03_div / C03_scalar for ALL operands: returns normally (divByZero and INT64_MIN/-1 are UB values of the model), "
@@ -87,7 +87,7 @@ for p in props:
                             "evidence_file": "evidence/%s.json" % pid,
                             "replay_cmd_template": "python3 tools/check.py %s --replay {path}" % pid,
                             "engine": "lean4-proof+correspondence",
-                            "level_claimed": {"category": cat, "text": text, "design_ref": "DESIGN.md section 3, " + pid},
+                            "level_claimed": {"category": cat, "text": text, "design_ref": "DESIGN.md section 0.3 (as built) and section 3, " + pid},
                             "level_note": NOTE, "technique": tech})
     else:
         m["not_applicable"].append({"property_id": pid, "reason": NA_DEFAULT})
